@@ -38,6 +38,18 @@ FsBadArgs     == {"noarg", "badjson", "notobject", "nocmd", "nopath", "unknowncm
 UnknownArgs   == {"frobnicate", "empty", "uppercase", "stream_window", "leadingspace", "sentinel"}
 PlainArgs     == {"", "junk"}                  \* close / pause / resume / stop ignore trailing text
 
+\* ---- numeric parameter classes: every numeric parameter (window start/end, start_idx, max_results, time_ms, index, ids) is
+\* also sent with these values; len = number of messages of the file; u64k = u64::MAX/1000 + 1; p62 = 2^62
+NumClasses == {"0", "3", "lenm1", "len", "lenp1", "u32max", "u32maxp1", "u64k", "u64max", "p62", "1e19", "neg", "float"}
+NumU32 == {"0", "3", "lenm1", "len", "lenp1", "u32max"}                 \* the classes that are a valid stream id (u32)
+NWinArgs == {"nwin:" \o a \o ":" \o b : a \in NumClasses, b \in NumClasses}   \* window [a,b] resp. "a,b"
+NStartArgs == {"nstart:" \o a : a \in NumClasses}                    \* stream_search {"start_idx":a,..}
+NMaxArgs == {"nmax:" \o a : a \in NumClasses}                        \* stream_search {"max_results":a,..}
+NTimeArgs == {"ntime:" \o a : a \in NumClasses}                      \* stream_binary_search time_ms=a
+NIndexArgs == {"nindex:" \o a : a \in NumClasses}                    \* stream_binary_search index=a
+\* all of them are well-formed requests (numbers that do not fit are read as a default / 0 by the code): the reply is ok:
+\* where the plain shape answers ok: (an index lookup: ok: or err: depending on whether such a message exists)
+
 TargetVerbs == {"stop", "stream_change_window", "stream_binary_search", "stream_search"}
 
 FileModeOf(arg) == CASE arg = "ok_nocollect" -> "nocollect" [] arg \in OnePassOpenArgs -> "onepass" [] OTHER -> "all"
@@ -54,18 +66,18 @@ Pol(verb, arg, tk, file, plug, res, tlive, top) ==
                         ELSE IF arg \in OpenArchiveEmptyArgs THEN Both ELSE {"err"}
     [] verb \in {"close", "pause", "resume"} -> IF file # "none" THEN {"ok"} ELSE {"err"}
     [] verb \in {"stream", "query"} ->
-         IF file \in {"none", "nocollect"} \/ arg \notin StreamOkArgs THEN {"err"}
+         IF file \in {"none", "nocollect"} \/ arg \notin (StreamOkArgs \cup NWinArgs) THEN {"err"}
          ELSE IF file = "onepass" /\ arg # "ok_onepass" THEN {"err"}
          ELSE IF file = "onepass" /\ res THEN Both ELSE {"ok"}
     [] verb \in TargetVerbs ->
          IF tk # "id" \/ file = "none" \/ ~tlive THEN {"err"}
          ELSE IF verb = "stop" THEN {"ok"}
-         ELSE IF verb = "stream_change_window" THEN (IF arg \in ChangeOkArgs THEN (IF top THEN Both ELSE {"ok"}) ELSE {"err"})
+         ELSE IF verb = "stream_change_window" THEN (IF arg \in (ChangeOkArgs \cup NWinArgs) THEN (IF top THEN Both ELSE {"ok"}) ELSE {"err"})
          ELSE IF verb = "stream_binary_search" THEN
-                (IF arg \in {"time", "time_garbage"} THEN (IF top THEN Both ELSE {"ok"})
-                 ELSE IF arg \in {"index_found", "index_garbage"} THEN Both         \* found iff already parsed
+                (IF arg \in ({"time", "time_garbage"} \cup NTimeArgs) THEN (IF top THEN Both ELSE {"ok"})
+                 ELSE IF arg \in ({"index_found", "index_garbage"} \cup NIndexArgs) THEN Both         \* found iff already parsed
                  ELSE {"err"})
-         ELSE (IF arg \in SearchOkArgs THEN (IF top THEN Both ELSE {"ok"})         \* one-pass: rejecting is the code's own todo
+         ELSE (IF arg \in (SearchOkArgs \cup NStartArgs \cup NMaxArgs) THEN (IF top THEN Both ELSE {"ok"})         \* one-pass: rejecting is the code's own todo
                ELSE {"err"})                                                      \* incl. "noarg": the statement requires err:
     [] verb = "plugin_cmd" -> IF file # "none" /\ plug /\ arg = "ft_cmd" THEN {"ok"} ELSE {"err"}
     [] verb = "fs" -> IF arg \in FsOkArgs THEN {"ok"} ELSE IF arg \in FsFakeArgs THEN Both ELSE {"err"}
